@@ -29,7 +29,7 @@ m = {
         "add_only": True,
     },
     "engines": [{"name": "sim", "path": "/verif/sim", "serves_properties": sorted(PROPS),
-                 "kind_free_text": "deterministic simulator: testing/synctest bubble (virtual clock, quiescence), parked tasks released one at a time by a seeded chooser, fault injection at dskit's interface seams, choice-vector replay + shrinking; driver bin/vcheck fans out 16 worker processes"}],
+                 "kind_free_text": "deterministic simulator: testing/synctest bubble (virtual clock, quiescence), parked tasks released one at a time by a seeded chooser, lock-point yields and simulator-decided select statements in generated (overlay-only) copies of dskit files, fault injection at dskit's interface seams, choice-vector replay + shrinking; driver bin/vcheck fans out 16 worker processes"}],
     "checks": checks,
     "not_applicable": [{"property_id": k, "reason": v} for k, v in sorted(NOT_APPLICABLE.items())],
     "notes": "See DESIGN.md. Exit codes: 0 held, 1 VIOLATION, 2 harness/build/watchdog trouble. VERIF_SEED, VERIF_TIER, VERIF_BUDGET_S, VERIF_WORKERS are honoured.",
